@@ -697,8 +697,10 @@ def c_exp_skeleton():
     A = "ContinuousSpaceAgent"
     _skel("ContinuousSpaceAgent.__init__", _fn(AGT, A, "__init__", ["self", "space", "model"]), [
         "super().__init__(model)", "self.space: ContinuousSpace = space", "self.space._add_agent(self)"])
+    # as repaired (fix C02-2): a second remove() finds self.space None and does nothing more
     _skel("ContinuousSpaceAgent.remove", _fn(AGT, A, "remove", ["self"]), [
-        "super().remove()", "self.space._remove_agent(self)", "self._mesa_index = None", "self.space = None"])
+        "super().remove()",
+        "if self.space is not None:\n    self.space._remove_agent(self)\n    self._mesa_index = None\n    self.space = None"])
     _skel("get_neighbors_in_radius", _fn(AGT, A, "get_neighbors_in_radius", ["self", "radius"]), [
         "v0, v1 = self.space.get_agents_in_radius(self.position, radius=radius)",
         "v2 = np.asarray([v3 is not self for v3 in v0])", "v0 = list(compress(v0, v2))", "return (v0, v1[v2])"])
